@@ -95,7 +95,7 @@ func main() {
 }
 
 func c13(c *Ctx) {
-	c.Rule = "fault enumeration in a child process built with the delay overlay: scenarios close-idle / close-early (before the join completes) / close-queued (3..7 commands, the terminal goes after 1-2 were written) / close-outstanding / rst-outstanding / close-afterresp / close-timer (close within -1.5..+4.5 ms of the timer expiry) / notmo (no timeout, released by the disconnect) / mixed / burst / flood-close (30..400 heartbeats in one segment, then close or RST after 1-3 replies or 0.1-8 ms) / reissue-close (0..8 0x8003 frames in one write plus single ones, close or RST 0.05-8 ms later) / stall-close (a transfer stalled for 5 s: generated re-request, then close) / default0 (OverTimeDuration 0, silent terminal), 1..8 callers, timeouts 5-600 ms and the 3 s default, garbage-close (a frame with a bad check code from a live peer), under 8 configurations: 6 delay configurations (seeded Gosched only at 30 / 60 % of the instrumented sites, sleeps up to 0.2 / 0.5 / 1 / 3 ms at 30 / 20 / 15 / 12 %) and, for each of the instrumented sites in turn, with that site alone always delaying 2.5 ms; 2 configurations in which the user callbacks sleep up to 20 / 5 ms; the witness of finding blocked-write in a server of its own; a case is non-trivial when at least one call was made and the terminal went away; distinct = distinct recorded histories"
+	c.Rule = "fault enumeration in a child process built with the delay overlay: scenarios close-idle / close-early (before the join completes) / close-queued (3..7 commands, the terminal goes after 1-2 were written) / close-outstanding / rst-outstanding / close-afterresp / close-timer (close within -1.5..+4.5 ms of the timer expiry) / notmo (no timeout, released by the disconnect) / mixed / burst / flood-close (30..400 heartbeats in one segment, then close or RST after 1-3 replies or 0.1-8 ms) / reissue-close (0..8 0x8003 frames in one write plus single ones, close or RST 0.05-8 ms later) / stall-close (a transfer stalled for 5 s: generated re-request, then close) / default0 (OverTimeDuration 0, silent terminal), 1..8 callers, timeouts 5-600 ms and the 3 s default, garbage-close (a frame with a bad check code from a live peer) / nohandler (commands whose id has no entry in the handler table: unanswered, answered, outstanding at the disconnect; also one command in five of every other kind) / emptykey-close (KeyFunc result is the empty key: join, commands, disconnect, one more command to the empty key), under 8 configurations: 6 delay configurations (seeded Gosched only at 30 / 60 % of the instrumented sites, sleeps up to 0.2 / 0.5 / 1 / 3 ms at 30 / 20 / 15 / 12 %) and, for each of the instrumented sites in turn, with that site alone always delaying 2.5 ms; 2 configurations in which the user callbacks sleep up to 20 / 5 ms; the witness of finding blocked-write in a server of its own; a case is non-trivial when at least one call was made and the terminal went away; distinct = distinct recorded histories"
 	for _, o := range oldSchedules {
 		c.Do(o[0], false)
 	}
@@ -105,7 +105,7 @@ func c13(c *Ctx) {
 		return
 	}
 	kinds := []string{"close-idle", "close-early", "close-queued", "close-queued", "close-outstanding", "rst-outstanding",
-		"close-afterresp", "close-timer", "close-timer", "notmo", "mixed", "burst", "flood-close", "flood-close", "reissue-close", "reissue-close", "garbage-close"}
+		"close-afterresp", "close-timer", "close-timer", "notmo", "mixed", "burst", "flood-close", "flood-close", "reissue-close", "reissue-close", "garbage-close", "nohandler", "nohandler"}
 	cfgs := []DelayCfg{{Seed: int(c.Seed), US: 0, P: 30}, {Seed: int(c.Seed) + 1, US: 200, P: 30}, {Seed: int(c.Seed) + 2, US: 1000, P: 15},
 		{Seed: int(c.Seed) + 3, US: 3000, P: 12}, {Seed: int(c.Seed) + 4, US: 0, P: 60}, {Seed: int(c.Seed) + 5, US: 500, P: 20},
 		// user callbacks (OnRead/OnWrite/OnJoin/OnLeaveEvent) that sleep up to 20 / 5 ms, with and without the overlay's delays
@@ -136,6 +136,9 @@ func c13(c *Ctx) {
 			}
 			jobs = append(jobs, fmt.Sprintf("scn stall-close %d", c.Rng.Int63n(90000000))) // 5 s: generated re-request, then close
 		}
+		for j := 0; j < 6; j++ { // a terminal whose key is "": join, commands, disconnect, one more command to "" (one at a time)
+			jobs = append(jobs, fmt.Sprintf("scn emptykey-close %d", c.Rng.Int63n(90000000)))
+		}
 		results = append(results, &br{d: d, jobs: jobs})
 	}
 	// targeted: one site at a time always delays by 2.5 ms (the window between a check and the action it
@@ -144,7 +147,7 @@ func c13(c *Ctx) {
 	c.Extra["delay_sites"] = len(sites)
 	tk := []string{"close-timer", "close-timer", "close-timer", "close-timer", "close-timer", "close-timer",
 		"close-outstanding", "close-queued", "close-queued", "close-afterresp", "rst-outstanding", "notmo", "flood-close", "flood-close",
-		"reissue-close", "reissue-close"}
+		"reissue-close", "reissue-close", "nohandler", "emptykey-close"}
 	reps := 1
 	if !c.Quick() {
 		reps = 24
